@@ -482,6 +482,9 @@ def expected(prog, req):
     )
 
 
+DICT_MUTATIONS = []  # filled by run_build when the caller's dictionaries come back changed (judged by C12)
+
+
 ERR = {"TypeError": "Type", "KeyError": "Key", "ValueError": "Value", "BuildError": "Build", "ScopeError": "Scope"}
 
 
@@ -491,6 +494,18 @@ def run_build(env, req):
 
     inputs = {n: env[i] for n, i in req["inputs"]}
     outputs = {n: env[i] for n, i in req["outputs"]}
+    before = ([(k, id(v)) for k, v in inputs.items()], [(k, id(v)) for k, v in outputs.items()])
+    try:
+        return _run_build(inputs, outputs, req)
+    finally:
+        after = ([(k, id(v)) for k, v in inputs.items()], [(k, id(v)) for k, v in outputs.items()])
+        if after != before:
+            DICT_MUTATIONS.append(f"inputs/outputs dictionaries {before} became {after}")
+
+
+def _run_build(inputs, outputs, req):
+    import spox
+
     try:
         with warnings.catch_warnings():
             warnings.simplefilter("ignore")
